@@ -875,14 +875,28 @@ pub fn check_tx_matrix(world: &mut World) -> Result<u64, (String, String)> {
 					shapes.push(("fee-shifted".into(), t));
 				} else {
 					let (t, _) = world.wallet.build_tx(&[x.clone()], &[x.value - (fee >> shift)], None, KernelFeatures::Plain { fee: ff });
-					extra_bad.push(("pays-only-shifted-fee".into(), t));
+					extra_bad.push(("declares a fee with a priority shift but pays-only-shifted-fee".into(), t));
 				}
 			}
 		}
 	}
+	// a fee field as only the wire can deliver it: the 20 reserved bits above the fee and its shift
+	// set. They carry no value: a transaction whose outputs exceed its inputs by what those bits would
+	// be worth as a (wrapped, negative) fee creates coins.
+	if let Some(x) = pool.pop() {
+		let fee = grin_core::libtx::tx_fee(1, 1, 1);
+		let raw: u64 = 0xffff_f000_0000_0000 | fee;
+		let ff: Result<FeeFields, _> = grin_core::ser::deserialize(&mut &raw.to_be_bytes()[..], grin_core::ser::ProtocolVersion::local(), grin_core::ser::DeserializationMode::default());
+		if let Ok(ff) = ff {
+			// 2^64 - (raw fee field read as a fee) = 2^44 - fee more than the inputs hold
+			let created = (1u64 << 44) - fee;
+			let (t, _) = world.wallet.build_tx(&[x.clone()], &[x.value + created], None, KernelFeatures::Plain { fee: ff });
+			extra_bad.push(("has reserved fee-field bits set and outputs worth 2^44 nanogrin more than its inputs".into(), t));
+		}
+	}
 	for (vname, t) in &extra_bad {
 		if t.validate(Weighting::AsTransaction).is_ok() {
-			return Err((format!("corrupted-tx-accepted:{}", vname), format!("a transaction that declares a fee with a priority shift but {} passes Transaction::validate", vname)));
+			return Err((format!("corrupted-tx-accepted:{}", vname), format!("a transaction that {} passes Transaction::validate", vname)));
 		}
 	}
 	// multi-kernel aggregate
